@@ -78,9 +78,30 @@ def cav_ptr_inst(pointee, cpointee, guest_bytes, tier):
     stub = vstub('%s *arg' % cpointee, fresh('arg', 'sizeof(%s)' % cpointee))
     return Inst('c09_copy_and_verify_ptr_%s' % pointee, 'tainted<%s*, vsbx>& p, VPtr%s verifier' % (pointee, 'I' if pointee == 'int' else 'L'), 'p.copy_and_verify(verifier);', cl, h,
                 leaves=['dynamic_check'], prop=PROP, root_name='copy_and_verify', tier=tier, pre=GH, pre_defines=OBJVIEW, post_protos=stub,
-                opts={'param_fn_stubs': {'verifier': 'verifier_stub'}, 'amp_star': True}, extra_replace=['verifier_stub'], nondet_volatile=True,
+                opts={'param_fn_stubs': {'verifier': 'verifier_stub'}, 'amp_star': True, 'volatile_read_check': True}, extra_replace=['verifier_stub'], nondet_volatile=True,
                 replay={'kind': 'cav_content', 'ctype': pointee, 'gtype': {'int': 'int32_t', 'long': 'int32_t'}[pointee], 'no_inputs': True},
                 note='pointee occupies %d guest bytes at the end of a %s-typed read' % (guest_bytes, pointee))
+
+
+def cav_ptr_volatile_inst(tier):
+    """copy_and_verify (pointer form) on a tainted_volatile<int*> receiver: the pointer itself lives in sandbox memory and may be
+    rewritten between any two reads; the pointee is read once through the pointer value that was null-checked"""
+    TV = cs('rlbox::tainted_volatile<int *, rlbox::vsbx>')
+    cl = [('obj', '__CPROVER_requires(__CPROVER_r_ok((const struct %s *)$this, sizeof(struct %s)) && g_vcalls == 0 && g_news == 0 && V_BACKEND_WF)' % (TV, TV)),
+          ('cell_inv', '__CPROVER_requires(V_IN(0, (uintptr_t)$this) && g_expect_example == 0)'),
+          ('sandbox_memory_is_one_object_followed_by_a_guard_zone', '__CPROVER_requires(__CPROVER_r_ok(g_sbx_mem, V_SIZE[0] + 8) && (unsigned long)g_sbx_mem == V_BASE[0] && V_SIZE[1] == 0 && V_SIZE[0] <= 4096)'),
+          ('verifier_runs_once_and_its_result_is_returned', '__CPROVER_ensures(g_vcalls == 1 && $ret == g_vret)'),
+          ('frame', '__CPROVER_assigns(g_vcalls, g_new_bytes, g_news, g_new_ptr)')]
+    h = MEM.replace('V_SIZE[0] = in_size;', 'V_SIZE[0] = in_size - 8; /* 8 guard bytes after the region: reads of a pointee that starts inside never fault */') + (
+        '  __CPROVER_assume(in_size >= 64); struct %s *pp = (struct %s *)(mem + 8);\n  struct S_VPtrI vf;\n  int r = $ROOT((void *)pp, vf);\n' % (TV, TV))
+    stub = vstub('int *arg', fresh('arg', 'sizeof(int)'))
+    return Inst('c09_copy_and_verify_ptr_int_volatile_receiver', 'tainted_volatile<int*, vsbx>& p, VPtrI verifier', 'p.copy_and_verify(verifier);', cl, h,
+                leaves=['dynamic_check', 'vsbx.impl_get_unsandboxed_pointer_no_ctx', 'find_sandbox_from_example'], prop=PROP, root_name='copy_and_verify', tier=tier,
+                pre=GH, pre_defines=OBJVIEW, post_protos=stub, opts={'param_fn_stubs': {'verifier': 'verifier_stub'}, 'amp_star': True, 'volatile_read_check': True},
+                extra_replace=['verifier_stub'], nondet_volatile=True,
+                root_pick=lambda tu, fn: find_func(tu, 'copy_and_verify', None, lambda f, rn: 'VPtrI' in f.get('mangledName', '') and '16tainted_volatile' in f.get('mangledName', '').split('15copy_and_verify')[0]),
+                replay={'kind': 'cav_ptr_refetch', 'no_inputs': True},
+                note='receiver in sandbox memory; assumes 8 readable guard bytes after the region (guard page), so that the pointee read of a pointer to the last bytes does not fault')
 
 
 def range_inst(tier):
@@ -99,7 +120,7 @@ def range_inst(tier):
     return Inst('c09_copy_and_verify_range_int', 'tainted<int*, vsbx>& p, VArrI verifier, size_t n', 'p.copy_and_verify_range(verifier, n);', cl,
                 h.replace('unsigned long in_count;', 'unsigned long in_count; g_count = in_count;'),
                 leaves=['dynamic_check', CHECK_RANGE, 'vsbx.impl_is_in_same_sandbox'], prop=PROP, root_name='copy_and_verify_range', tier=tier,
-                pre=GH + ' unsigned long g_count;\n', pre_defines=OBJVIEW, post_protos=stub, opts={'param_fn_stubs': {'verifier': 'verifier_stub'}, 'amp_star': True},
+                pre=GH + ' unsigned long g_count;\n', pre_defines=OBJVIEW, post_protos=stub, opts={'param_fn_stubs': {'verifier': 'verifier_stub'}, 'amp_star': True, 'volatile_read_check': True},
                 extra_replace=['verifier_stub'], object_bits=12, nondet_volatile=True, loop_contracts={('copy_and_verify_range_helper', 0): lc}, timeout=600,
                 note='element copy loop by loop contract; every element read is an adversarial (nondeterministic) read; the buffer handed to the verifier is the object allocated with count elements')
 
@@ -153,7 +174,7 @@ def string_inst(kind, recv, tier):
                 '__CPROVER_ensures(__CPROVER_return_value.src == s && (s[0] == 0 ? __CPROVER_return_value.len == 0 : __CPROVER_return_value.len + 1 <= g_new_bytes))\n__CPROVER_assigns();\n' + stub)
         extra = ['verifier_stub', 'vstd_strlen', 'vstd_string_from', 'vstd_string_cstr']
     return Inst('c09_copy_and_verify_string_%s_%s' % (kind, recv), params, 'p.copy_and_verify_string(verifier);', cl, h, leaves=leaves, prop=PROP,
-                root_name='copy_and_verify_string', tier=tier, pre=GH, pre_defines=OBJVIEW, post_protos=post, opts={'param_fn_stubs': {'verifier': 'verifier_stub'}, 'amp_star': True},
+                root_name='copy_and_verify_string', tier=tier, pre=GH, pre_defines=OBJVIEW, post_protos=post, opts={'param_fn_stubs': {'verifier': 'verifier_stub'}, 'amp_star': True, 'volatile_read_check': True},
                 extra_replace=extra, object_bits=12, nondet_volatile=True, loop_contracts=lcs, timeout=600,
                 root_pick=lambda tu, fn, V=V: find_func(tu, 'copy_and_verify_string', None, lambda f, rn: V in f.get('mangledName', '') and (('16tainted_volatile' in f.get('mangledName', '').split('22copy_and_verify_string')[0]) == (recv == 'tainted_volatile'))),
                 replay={'kind': 'cav_string', 'verifier': kind, 'recv': recv, 'no_inputs': True},
@@ -182,7 +203,7 @@ def content_ptr_inst(pointee, tier):
     h = h.replace('  struct S_VC_', '  g_null_src = in_null;\n  struct S_VC_')
     return Inst('c09_content_ptr_%s' % tag, 'tainted<%s*, vsbx>& p, VC_%s verifier' % (pointee, tag), 'p.copy_and_verify(verifier);', cl, h,
                 leaves=['dynamic_check'], prop=PROP, root_name='copy_and_verify', tier=tier, pre=GH + ' void *g_src; _Bool g_null_src;\n', pre_defines=OBJVIEW, post_protos=stub,
-                opts={'param_fn_stubs': {'verifier': 'verifier_stub'}, 'amp_star': True}, extra_replace=['verifier_stub'],
+                opts={'param_fn_stubs': {'verifier': 'verifier_stub'}, 'amp_star': True, 'volatile_read_check': True}, extra_replace=['verifier_stub'],
                 replay={'kind': 'cav_content', 'ctype': pointee, 'gtype': GTYPE[pointee], 'no_inputs': True},
                 note='pointee %s occupies %d guest bytes; every byte position in sandbox memory including the last %d bytes' % (pointee, gb, gb))
 
@@ -209,7 +230,7 @@ def content_range_inst(el, tier):
     return Inst('c09_content_range_%s' % tag, 'tainted<%s*, vsbx>& p, VR_%s verifier, size_t n' % (el, tag), 'p.copy_and_verify_range(verifier, n);', cl, h,
                 leaves=['dynamic_check', CHECK_RANGE, 'vsbx.impl_is_in_same_sandbox'], prop=PROP, root_name='copy_and_verify_range', tier=tier,
                 pre=GH + ' unsigned long g_count; unsigned long g_w; void *g_src;\n', pre_defines=OBJVIEW, post_protos=stub,
-                opts={'param_fn_stubs': {'verifier': 'verifier_stub'}, 'amp_star': True}, extra_replace=['verifier_stub'], object_bits=12,
+                opts={'param_fn_stubs': {'verifier': 'verifier_stub'}, 'amp_star': True, 'volatile_read_check': True}, extra_replace=['verifier_stub'], object_bits=12,
                 loop_contracts={('copy_and_verify_range_helper', 0): lc}, timeout=900, replay={'kind': 'cav_content', 'ctype': el, 'gtype': GTYPE[el], 'range': True, 'no_inputs': True},
                 note='element g_w is an arbitrary witness index: the loop invariant carries "every copied element equals the guest decoding of its source element"')
 
@@ -221,7 +242,7 @@ def content_insts(tier):
 
 
 def units(tier):
-    insts = [cav_ptr_inst('int', 'int', 4, tier), cav_ptr_inst('long', 'long', 4, tier), range_inst(tier),
+    insts = [cav_ptr_inst('int', 'int', 4, tier), cav_ptr_inst('long', 'long', 4, tier), cav_ptr_volatile_inst(tier), range_inst(tier),
              string_inst('uptr', 'tainted', tier), string_inst('std', 'tainted', tier), string_inst('uptr', 'tainted_volatile', tier)] + content_insts(tier)
     if tier != 'quick':
         insts.append(string_inst('std', 'tainted_volatile', tier))
